@@ -98,6 +98,9 @@ pub fn menu(sub: &Subject, inst: &Instance, with_probes: bool) -> Vec<Act> {
         }
     }
     m.push(Act::Nop);
+    if nin > 0 {
+        m.push(Act::Finish);
+    }
     if with_probes {
         m.push(Act::Satisfy);
     }
@@ -549,7 +552,7 @@ pub fn explore(rep: &mut Report, sub: &Subject, cfg: &EnvCfg) {
             return;
         }
     }
-    if prop == "C16" || prop == "C14" {
+    if prop == "C16" || (prop == "C14" && sub.no_retire_check) {
         if let Some((clause, msg)) = source_oracle(sub, &reference) {
             fail(rep, prop, &clause, msg, &ref_start, &one_shot);
         }
@@ -598,12 +601,28 @@ pub fn explore(rep: &mut Report, sub: &Subject, cfg: &EnvCfg) {
         } else {
             sequences(&m, h)
         };
+        // Nothing can be fed after Finish: those sequences repeat others.
+        let after_finish_ok = |s: &Vec<Act>| {
+            let mut fin = false;
+            for a in s {
+                if fin && matches!(a, Act::Feed(..) | Act::FeedAll(_) | Act::Finish) {
+                    return false;
+                }
+                fin |= matches!(a, Act::Finish);
+            }
+            true
+        };
+        let seqs: Vec<Vec<Act>> = seqs.into_iter().filter(after_finish_ok).collect();
         let seqs: Vec<Vec<Act>> = if sub.warmup.is_empty() {
             seqs
         } else {
             let mut all = seqs.clone();
             let wh = (cfg.warm_horizon as i32 + sub.horizon_delta).max(2) as usize;
-            let wseqs = if sub.infinite_source || wh >= h { seqs.clone() } else { sequences(&m, wh) };
+            let wseqs: Vec<Vec<Act>> = if sub.infinite_source || wh >= h {
+                seqs.clone()
+            } else {
+                sequences(&m, wh).into_iter().filter(after_finish_ok).collect()
+            };
             for s in &wseqs {
                 let mut w = sub.warmup.clone();
                 w.extend(s.iter().copied());
@@ -626,7 +645,8 @@ pub fn explore(rep: &mut Report, sub: &Subject, cfg: &EnvCfg) {
             distinct_outcomes.insert(fnv(format!("{verdicts:?}").as_bytes()));
             let r = match prop {
                 "C16" => source_oracle(sub, &e).map(|(c, m)| ("C16", c, m)),
-                "C14" => source_oracle(sub, &e).map(|(c, m)| ("C14", c, m)),
+                "C14" if sub.no_retire_check => source_oracle(sub, &e).map(|(c, m)| ("C14", c, m)),
+                "C14" => chunking_oracle(&e, &reference).map(|(c, m)| ("C14", c, m)),
                 "C11" => chunking_oracle(&e, &reference).map(|(c, m)| ("C11", c, m)),
                 "C19" => {
                     let mut r = chunking_oracle(&e, &reference).map(|(c, m)| ("C19", c, m));
@@ -721,11 +741,19 @@ pub fn replay_one(rep: &mut Report, sub: &Subject, prop: &'static str, start: &S
             }
         }
     }
-    if prop == "C16" || prop == "C14" {
+    if prop == "C16" || (prop == "C14" && sub.no_retire_check) {
         out.clear();
         if let Some((c, m)) = source_oracle(sub, &e) {
             out.push((prop.to_string(), c, m));
         }
+    } else if prop == "C14" {
+        let mut v: Vec<(String, String, String)> = vec![];
+        for (p, c, m) in out.drain(..) {
+            if p == "C08" {
+                v.push(("C14".into(), c, m));
+            }
+        }
+        out = v;
     }
     if prop == "C12" && sub.no_retire_check {
         out.clear();
